@@ -65,6 +65,10 @@ type res struct {
 
 func (r *res) ClientIP(fox.Context) (*net.IPAddr, error) {
 	if r.fail {
+		if r.ip != "" {
+			// a resolver may hand back the candidate it rejected together with its error: the error decides
+			return &net.IPAddr{IP: net.ParseIP(r.ip)}, errors.New("cannot resolve: candidate rejected")
+		}
 		return nil, errors.New("cannot resolve")
 	}
 	return &net.IPAddr{IP: net.ParseIP(r.ip), Zone: r.zone}, nil
@@ -171,6 +175,8 @@ func main() {
 		{"no global, route override ok", nil, rok, false},
 		{"global failing, route override ok", bad, rok, false},
 		{"global ok with a zone", &res{ip: "fe80::1", zone: "eth0"}, nil, false},
+		{"global failing with a rejected candidate", &res{fail: true, ip: "203.0.113.9"}, nil, false},
+		{"global ok, route override failing with a rejected candidate", ok, &res{fail: true, ip: "203.0.113.10"}, false},
 		{"global ok, route override ok with a zone", ok, &res{ip: "fe80::2", zone: "wlan0"}, false},
 	}
 	behs := behaviours()
